@@ -573,6 +573,7 @@ class Evaluator:
         self.virtual_inline = virtual_inline
         self._const_memo: Dict[Tuple[str, str], Term] = {}
         self._cur_state: Optional[_State] = None
+        self._loop_depth: int = 0
         self._cur_depth: int = 0
         self._const_busy: set = set()
         self._fn_by_key: Dict[str, FunctionInfo] = {f.key: f for f in model.all_functions()}
@@ -987,6 +988,13 @@ class Evaluator:
         return names
 
     def loop(self, s, st: _State, mod, fi, depth, outs) -> List[_State]:
+        before = self._loop_depth
+        try:
+            return self._loop(s, st, mod, fi, depth, outs)
+        finally:
+            self._loop_depth = before
+
+    def _loop(self, s, st: _State, mod, fi, depth, outs) -> List[_State]:
         if isinstance(s, ast.For):
             it = self.expr(s.iter, st, mod, fi, depth)
             tsrc = ast.unparse(s.target)
@@ -1012,6 +1020,7 @@ class Evaluator:
         else:
             it = self.expr(s.test, st, mod, fi, depth)
             tsrc = '<while>'
+        self._loop_depth += 1   # from here on the body is evaluated once, symbolically
         body_st = st.fork()
         body_st.effects = ()
         body_st.guards = ()
@@ -1595,6 +1604,23 @@ class Evaluator:
 
     def call(self, e: ast.Call, st: _State, mod, fi, depth) -> Term:
         func = self.expr(e.func, st, mod, fi, depth)
+        if self._loop_depth == 0 and isinstance(e.func, ast.Attribute) and e.func.attr in ('append', 'extend') and isinstance(e.func.value, ast.Name) \
+                and len(e.args) == 1 and not e.keywords and not isinstance(e.args[0], ast.Starred):
+            cur = st.env.get(e.func.value.id)
+            if isinstance(cur, TupleT) and cur.kind == 'list' and not any(isinstance(x, Op) and x.op == '*' for x in cur.items):
+                # straight-line code: the list value after the call (every name bound to this very list sees it)
+                v = self.expr(e.args[0], st, mod, fi, depth)
+                new = None
+                if e.func.attr == 'append':
+                    new = TupleT(cur.items + (v,), 'list')
+                elif isinstance(v, TupleT) and not any(isinstance(x, Op) and x.op == '*' for x in v.items):
+                    new = TupleT(cur.items + v.items, 'list')
+                if new is not None:
+                    for k in [k for k, val in st.env.items() if val is cur]:
+                        st.env[k] = new
+                    c = Call(func, (v,), ())
+                    st.effects = st.effects + (c,)
+                    return NONE
         args: List[Term] = []
         star = False
         for a in e.args:
@@ -1694,6 +1720,41 @@ class Evaluator:
                     if r is not None:
                         return r
             return Call(func, args, kwargs)
+        if isinstance(func, Attr) and func.name == 'format' and isinstance(func.base, Const) and isinstance(func.base.value, str) and not star:
+            # 'text {name} {0}'.format(...) is the f-string with the arguments spliced in
+            import string
+            try:
+                pieces = list(string.Formatter().parse(func.base.value))
+            except ValueError:
+                pieces = None
+            if pieces is not None:
+                parts: List[Term] = []
+                auto = 0
+                ok = True
+                kw = dict(kwargs)
+                for lit, fname, spec, conv in pieces:
+                    if lit:
+                        parts.append(Const(lit))
+                    if fname is None:
+                        continue
+                    if fname == '':
+                        key: Any = auto
+                        auto += 1
+                    elif fname.isdigit():
+                        key = int(fname)
+                    else:
+                        key = fname
+                    if isinstance(key, int) and key < len(args):
+                        v = args[key]
+                    elif isinstance(key, str) and key in kw:
+                        v = kw[key]
+                    else:
+                        ok = False
+                        break
+                    parts.append(Fmt(v, conv or '', spec or ''))
+                if ok:
+                    self.resolved_calls += 1
+                    return self.template(parts)
         if isinstance(func, Attr) and func.name == 'get' and not star and not kwargs and 1 <= len(args) <= 2:
             bd = func.base.value if isinstance(func.base, GlobalVal) else func.base
             if isinstance(bd, DictT):
